@@ -17,6 +17,7 @@ RULE = ("seeded random key columns (1-3 keys, classes int/float+NaN/str/bool/dat
         "key position, sorted prefixes of every length class, NaN inside a sorted prefix) x routes {factorize_1d, factorize_2d, "
         "monotonic_factorization, GroupBy plain, GroupBy with the chunking threshold scaled to 8 rows (chunked / monotonic / partially "
         "monotonic), GroupBy on pre-chunked arrow keys} x containers {ndarray, pd.Series, pa.array, pa.chunked_array, pl.Series, arrow-backed pd.Series}; "
+        "plus keys that are a pd.RangeIndex (any start, step of either sign, also as the first of several keys) and generic pd.Index keys; "
         "non-trivial = at least 2 rows with non-null key and 2 distinct labels or a null key; distinct = distinct (keys, classes, route, container)")
 ASSUMPTIONS = [
     "pd.factorize / factorize_array / Index.get_indexer / drop_duplicates are trusted library behaviour (first-appearance codes, -1 for null)",
@@ -91,6 +92,15 @@ def gen_cases(tier, rng):
             if route == "gb_arrowchunks":
                 route = "gb_plain"
         case = dict(route=route, keys=cols, key_classes=classes, container=container, sort=rng.random() < 0.5)
+        if route in ("f1", "gb_plain", "gb_small") and rng.random() < 0.12:
+            # the range-index route: the first key IS an arithmetic progression (any start, step of either sign)
+            start, step = rng.randint(-3, 3), rng.choice([1, 1, 2, 3, -1, -2])
+            case["keys"][0] = [start + i * step for i in range(n)]
+            case["key_classes"][0] = "int"
+            case["container"] = "range_index"
+            case["range"] = [start, step]
+        elif route in ("f1", "gb_plain", "gb_small") and container == "series" and rng.random() < 0.3:
+            case["container"] = "pd_index"
         if container == "pa_chunked":
             k = rng.randint(1, 3)
             cuts = sorted(rng.randint(0, n) for _ in range(k - 1))
@@ -113,6 +123,8 @@ def to_container(arr, cls, container, chunks=None):
         return arr
     if container == "series":
         return pd.Series(arr, name="k")
+    if container == "pd_index":
+        return pd.Index(arr, name="k")
     if cls == "categorical":
         return pd.Series(arr, name="k")  # arrow containers: categoricals are covered by C12
     whole = pa.array(arr, type=arrow_type(cls), from_pandas=True)
@@ -184,8 +196,17 @@ def observe(case):
 
     route, classes = case["route"], case["key_classes"]
     arrs = [encode_key_column(col, cls) for col, cls in zip(case["keys"], classes)]
+
+    def build(j):
+        if case["container"] == "range_index":
+            if j > 0:
+                return pd.Series(arrs[j], name=f"k{j}")
+            start, step = case["range"]
+            n = len(arrs[0])
+            return pd.RangeIndex(start * 10 + 5, start * 10 + 5 + step * 10 * n, step * 10, name="k")
+        return to_container(arrs[j], classes[j], case["container"], case.get("chunks"))
     if route == "f1":
-        x = to_container(arrs[0], classes[0], case["container"], case.get("chunks"))
+        x = build(0)
         codes, labels = factorize_1d(x)
         return dict(codes=np.asarray(codes).tolist(), labels=list(labels))
     if route == "f2":
@@ -200,7 +221,7 @@ def observe(case):
     old = core_mod.THRESHOLD_FOR_CHUNKED_FACTORIZE
     try:
         core_mod.THRESHOLD_FOR_CHUNKED_FACTORIZE = 8 if route == "gb_small" else 10 ** 9
-        xs = [to_container(a, c, case["container"], case.get("chunks")) for a, c in zip(arrs, classes)]
+        xs = [build(j) for j in range(len(arrs))]
         gb = GroupBy(xs[0] if len(xs) == 1 else xs, sort=case["sort"])
         out = dict(chunked=bool(gb.key_is_chunked), ngroups=int(gb.ngroups), labels=list(gb.result_index))
         size = gb.size()
@@ -332,6 +353,8 @@ def shrink_candidates(case):
     for i in range(n):
         if n <= 1:
             break
+        if case["container"] == "range_index" and i != n - 1:
+            continue  # only a prefix of a progression is a progression
         c = dict(case)
         c["keys"] = [col[:i] + col[i + 1:] for col in case["keys"]]
         if case.get("chunks"):
